@@ -145,7 +145,7 @@ def run(ctx):
     rng = ctx.rng(2)
     for _ in range(ctx.n(40, 800)):
         ploidy = 2 if rng.random() < 0.3 else 1
-        ts, info = gen.gen_ts(rng, historical=0.3, polytomy=0.15, rootmuts=0.2, ploidy=ploidy,
+        ts, info = gen.gen_ts(rng, historical=0.3, polytomy=0.15, rootmuts=0.2, ploidy=ploidy, extra_flags=0.2,
                               n=int(rng.integers(2, 7)))
         if ts.num_mutations == 0:
             continue
